@@ -208,7 +208,9 @@ Definition next_action (en : env) (s : csys) : option (action arg) :=
   | Some i => Some (AReturn i)
   | None =>
       (* a parked call future holds a clone of its client: the request channel does not end *)
+      (* ... and it ends behind the requests that are still waiting for a slot *)
       if all_dead (clients s) && negb (qclosed s) && match e_parked en with [] => true | _ => false end
+         && match wire s with [] => true | _ => false end
       then Some ACloseReqs else None
   end end end end end end end.
 
